@@ -724,3 +724,10 @@ def items_as_subs(t):
 
 def flat_text(t):
     return text_parts(t)
+
+
+def seq_concat(t):
+    """Pieces of a list concatenation in any spelling: a + [x] + b and
+    [*a, x, *b] both give [('splice', a), ('item', x), ('splice', b)]."""
+    return [("splice", x[1]) if k == "item" and x[0] == "star" else (k, x)
+            for k, x in concat_parts(t)]
